@@ -13,7 +13,7 @@ from harness.ns import QNAMES
 
 ID = "C09"
 LEAN_MODULES = ["Pypika.Props.C09"]
-THEOREMS = ["Pypika.C09.observers_pure", "Pypika.C09.set_free", "Pypika.C09.observers_listed"]
+THEOREMS = ["Pypika.C09.observers_pure", "Pypika.C09.set_free", "Pypika.C09.observers_listed", "Pypika.C09.observations_frame"]
 AGREE = []
 TRUSTED = ["harness/effects.py (ast pass over the observation methods)", "Python: **kwargs gives the callee a fresh dict; "
            "str.format / join evaluate in source order"]
